@@ -70,6 +70,16 @@ EvalCheckSig(ctx, vm, sig, key) ==
     ELSE IF ctx.sigver = "TAPSCRIPT" THEN EvalTapscript(ctx, vm, sig, key)
     ELSE EvalPreTapscript(ctx, vm, sig, key)
 
+\* the digest a single-signature opcode verifies against, when it gets as far as computing one: <<defined, digest>>
+DigestOf(ctx, vm, sig, key) ==
+    IF Len(sig) = 0 \/ ~ctx.hasTx THEN <<FALSE, <<>>>>
+    ELSE IF ctx.sigver \in {"TAPROOT", "TAPSCRIPT"} THEN
+        (IF Len(key) # 32 \/ (Len(sig) # 64 /\ Len(sig) # 65) THEN <<FALSE, <<>>>>
+         ELSE LET d == TaprootDigest(ctx, vm, IF Len(sig) = 65 THEN sig[65] ELSE 0, ctx.sigver = "TAPROOT") IN <<d[1], d[2]>>)
+    ELSE LET code0 == DropFirst(ctx.script, vm.cbegin)
+             code == IF ctx.sigver = "BASE" THEN FindAndDelete(code0, RawPush(sig))[2] ELSE code0
+         IN <<TRUE, IF ctx.sigver = "WITNESS_V0" THEN WitV0Digest(ctx, code, Last(sig)) ELSE LegacyDigest(ctx, code, Last(sig))>>
+
 \* one comparison inside OP_CHECKMULTISIG: [err, ok]
 MultisigPair(ctx, sig, key, scriptCode) ==
     IF key \in PretendKeys(ctx) THEN [err |-> "", ok |-> <<sig, key>> \in ctx.pretend]
